@@ -111,6 +111,14 @@ Proof.
   vm_compute. auto.
 Qed.
 
+(* An exchange during which other exchanges / ticks complete (GossipOnceWith holds no lock across its round trip) is
+   observed in the middle as well; the monitor's middle check (nothing regresses from before to the middle, nor from
+   the middle to the end) passes on every model run: what the initiator learnt meanwhile survives its own merge. *)
+Theorem C12_monitor_mids_sound : forall strict ops c,
+  ok_mids c (combine ops (model_trace strict c ops)) (model_mids strict c ops) = true.
+Proof. exact monitor_mids_sound. Qed.
+Print Assumptions C12_monitor_mids_sound.
+
 (* ---- tie to the source by translation: the heartbeat order and the heartbeat updates of the model are EQUAL to the
    Gallina that translator/go2coq regenerates from x/go/version/heartbeat.go on every run (Generated/Src_Version.v):
    OlderThan / YoungerThan for all heartbeats, Increment / Restart as long as the uint32 fields do not wrap. *)
